@@ -24,8 +24,6 @@ Font == [k \in 1..FontLen |-> (k * 37) % 256]
 
 \* ---- file prefix / suffix around the cells
 AdfPalBytes == [n \in 1..(3 * AdfPalEntries) |-> RegColour((n - 1) \div 3)[((n - 1) % 3) + 1]]
-PalBytes == LET regs == [r \in 0..(AdfPalEntries - 1) |-> IF \E k \in 1..16 : AdfReg(k) = r THEN Pal16[CHOOSE k \in 1..16 : AdfReg(k) = r /\ \A j \in 1..16 : AdfReg(j) = r => j <= k] ELSE <<9, 9, 9>>]
-               IN [n \in 1..(3 * AdfPalEntries) |-> regs[(n - 1) \div 3][((n - 1) % 3) + 1]]
 PalBytes == [n \in 1..48 |-> Pal16[((n - 1) \div 3) + 1][((n - 1) % 3) + 1]]
 Prefix == CASE Fmt = "bin" -> <<>>
             [] Fmt = "adf" -> <<1>> \o AdfPalBytes \o Font
